@@ -71,10 +71,13 @@ def queries(tier, seed):
     for e in ('h_key_from_pixel', 'h_key_from_tuple', 'h_tuple_compare', 'h_empty'):
         qs.append(Q('helpers/%s' % e[2:], 'C19/hist.cpp', e, rt=['hash'], unwind=8, rt_unwind=40, tier=Q_, timeout=120))
     # ---- sparse histogram attempt (thorough): params = w, h, bin width, accumulate, symbolic bits, seed, previous contents
-    for (w, h, bw, acc, nb, sd, prev) in [(1, 1, 1, 0, 8, 0, 1), (1, 1, 1, 1, 8, 0, 1), (1, 1, 2, 1, 8, 0, 1), (1, 1, 16, 0, 8, 0, 0), (0, 0, 1, 1, 8, 0, 1), (2, 1, 1, 0, 8, 0, 0), (1, 2, 4, 0, 8, 0, 0)]:
-        qs.append(Q('sparse_fill/gray8/%dx%d_bw%d_acc%d_prev%d' % (w, h, bw, acc, prev), 'C19/hist.cpp', 'h_sparse_fill', rt=['hash'], params=[w, h, bw, acc, nb, sd, prev], unwind=16, rt_unwind=40, tier=T_, timeout=900, mem_gb=12, solvers=['kissat']))
+    # (fully symbolic 1x1 accumulate-onto-previous took 865 s, 2x1 795 s: the heavier shapes are stratified to 4 symbolic bits per pixel as well)
+    for (w, h, bw, acc, nb, sd, prev) in [(1, 1, 1, 0, 8, 0, 1), (1, 1, 1, 1, 4, 1, 1), (1, 1, 1, 1, 8, 0, 1), (1, 1, 2, 1, 4, 2, 1), (1, 1, 16, 0, 8, 0, 0), (0, 0, 1, 1, 8, 0, 1),
+                                          (2, 1, 1, 0, 4, 3, 0), (2, 1, 1, 0, 8, 0, 0), (1, 2, 4, 0, 4, 4, 0)]:
+        qs.append(Q('sparse_fill/gray8/%dx%d_bw%d_acc%d_prev%d_bits%d_s%d' % (w, h, bw, acc, prev, nb, sd), 'C19/hist.cpp', 'h_sparse_fill', rt=['hash'], params=[w, h, bw, acc, nb, sd, prev], unwind=16, rt_unwind=40,
+                    tier=T_, timeout=1500 if nb == 8 and (acc or w * h > 1) else 900, mem_gb=12, solvers=['kissat']))
     for (w, h, bw) in [(1, 1, 1), (1, 1, 4)]:
-        qs.append(Q('sparse_cumulative/gray8/%dx%d_bw%d' % (w, h, bw), 'C19/hist.cpp', 'h_sparse_cumulative', rt=['hash'], params=[w, h, bw, 0, 8, 0, 0], unwind=16, rt_unwind=40, tier=T_, timeout=900, mem_gb=12, solvers=['kissat']))
+        qs.append(Q('sparse_cumulative/gray8/%dx%d_bw%d' % (w, h, bw), 'C19/hist.cpp', 'h_sparse_cumulative', rt=['hash'], params=[w, h, bw, 0, 8, 0, 0], unwind=16, rt_unwind=70, tier=T_, timeout=900, mem_gb=12, solvers=['kissat']))
     names = set(); out = []
     for q in qs:
         if q.name in names: continue
